@@ -139,6 +139,12 @@ func (o *ObjectSchema) unserializeInlinedDataToMap(data any) (map[string]any, er
 			" properties; only 1 allowed", len(o.Properties())))
 	}
 	for fieldName, property := range o.Properties() {
+		if o.inlinedPropertyLeadsBackToSelf(property) {
+			// Without this check the lone value would be handed down the reference cycle forever.
+			return nil, &ConstraintError{
+				Message: fmt.Sprintf("Must be a map to convert to object, %T given", data),
+			}
+		}
 		unserializedProperty, err := property.Unserialize(data)
 		if err != nil {
 			// A ConstraintError, so that enclosing lists, maps and objects can add the path that leads here.
@@ -160,6 +166,42 @@ func (o *ObjectSchema) unserializeInlinedDataToMap(data any) (map[string]any, er
 		}, nil
 	}
 	panic("convertInlinedData called on object with zero properties")
+}
+
+// inlinedPropertyLeadsBackToSelf follows the chain of single-property objects that a lone value would be passed
+// down through and reports whether the chain returns to an object already on it (possible through references).
+func (o *ObjectSchema) inlinedPropertyLeadsBackToSelf(property *PropertySchema) bool {
+	onChain := map[Object]struct{}{o: {}}
+	var current Type = property.Type()
+	for {
+		var next Object
+		switch t := current.(type) {
+		case *RefSchema:
+			if !t.ObjectReady() {
+				return false
+			}
+			next = t.GetObject()
+		case *ScopeSchema:
+			if _, found := t.ObjectsValue[t.RootValue]; !found {
+				return false
+			}
+			next = t.ObjectsValue[t.RootValue]
+		case *ObjectSchema:
+			next = t
+		default:
+			return false
+		}
+		if next == nil || len(next.Properties()) != 1 {
+			return false // The lone value is not passed on any further from here.
+		}
+		if _, seen := onChain[next]; seen {
+			return true
+		}
+		onChain[next] = struct{}{}
+		for _, nextProperty := range next.Properties() {
+			current = nextProperty.Type()
+		}
+	}
 }
 
 func (o *ObjectSchema) unserializeToStruct(rawData map[string]any) (any, error) {
